@@ -12,6 +12,22 @@ NOT_APPLICABLE = {
 }
 
 PROPERTIES = {
+    "C07": {
+        "modules": ["harness.c07"],
+        "explanation": "",
+        "assumptions": COMMON_ASSUMPTIONS + [
+            "cryptography.x509 / ec, ecdsa and datetime inside admin.certificate_v2 are a token algebra: certificates are objects with symbolic "
+            "validity bounds, signature verification is a symbolic verdict per (key, signature, data) triple, one shared symbolic verdict "
+            "for every other triple; time is a symbolic integer; hashlib.sha256 stays real (its inputs are concrete)",
+            "X.509 parsing, ECDSA and SHA-256 themselves are outside the claim; so is 'every single-byte corruption is rejected' (crypto soundness)",
+            "C-struct parsing of the (concrete) report bodies and hex decoding run natively; report_data offsets 320 / 48+320 are computed "
+            "independently from the struct layouts in sgx/envelope.py's docstrings",
+            "replay re-executes the obligation with the same token algebra",
+        ],
+        "level_text": "bounded symbolic verification of the v2 chain logic: validity windows and the clock as symbolic integers, verdicts and "
+                      "binding-hash placement symbolic, chain depth 1..3; oracle = the conjunction in the statement, failing element = first from the root",
+        "level_note": "trusted: CrossHair/z3, the token algebra standing for cryptography / ecdsa / datetime",
+    },
     "C16": {
         "modules": ["harness.c16"],
         "explanation": "",
